@@ -163,8 +163,12 @@ pub fn run(ctx: &'static Ctx) {
     let names_all = ["transports", "credBlob", "minPinLength", "credProps", "hmac-secret-mc", "prf", "", "x", "Id", "ids"];
     let mut keys: Vec<V> = names_all.iter().map(|n| V::t(n)).collect();
     keys.push(V::t(&"k".repeat(255)));
-    let nodes = if ctx.thorough() { 4 } else { 3 };
+    let nodes = if ctx.thorough() { 5 } else { 3 };
     let values = values_up_to(nodes);
+    if ctx.thorough() {
+        // the value grammar grows fast: three representative key names keep the product enumerable
+        keys = vec![V::t("transports"), V::t(""), V::t(&"k".repeat(255))];
+    }
     ctx.note(format!("{} host maps, {} key names, {} unknown values of <= {} nodes", hosts.len(), keys.len(), values.len(), nodes));
     // flat index space: host x position x key x value
     let mut offs: Vec<u64> = Vec::new();
